@@ -254,6 +254,8 @@ def check(src, rep):
     emit(rep, m, appended_values(m), rules)
     emit(rep, m, [r for r in buffer_contracts(m) if r.instance in ("pop", "trim-to-position", "trim-to-flag")], rules)
     emit(rep, m, frozen_after_emit(m), rules)
+    from sa.hdlcref import fresh_only_at_flag
+    emit(rep, m, fresh_only_at_flag(m), {"start-at-flag": "R5"})
     emit(rep, m, [r for r in conformance(m) if r.instance in ("emit", "start")], {"row": "R5"})
     from sa.cross import include
     include(rep, src, "C16", {"R1"}, "R5", "the octets of a returned frame are the un-stuffed input between its two flags (no per-frame state of an earlier frame is applied to it)")
